@@ -4,7 +4,7 @@
    every interleaving of the threads at their queue operations and request completions; all statements are for any number of
    ranges and any number >= 1 of workers, any file content and any set of failing requests. *)
 From Coq Require Import ZArith List Bool Sorted Permutation.
-From LasV Require Import Lib.Base Gen.GenFetch Model.Fetch Proofs.FetchProofs Proofs.FetchExecProofs.
+From LasV Require Import Lib.Base Gen.GenFetch Model.Fetch Proofs.FetchProofs Proofs.FetchExecProofs Proofs.FetchPrologueProofs.
 Import ListNotations.
 Open Scope Z_scope.
 
@@ -126,20 +126,109 @@ Theorem C16_exec_completion_order_is_a_race : exists sched,
 Proof. exact exec_completion_order_race. Qed.
 Print Assumptions C16_exec_completion_order_is_a_race.
 
+(* ---- one range request: HttpRangeStream.read as extracted from the source, against any server ---- *)
+
+(* a request for (pos, n) fails exactly when one is made (n <> 0) and the server does not answer (connection error) or answers
+   with ANY client / server error status 400..599 (incl. 416) — whatever body the error response carries *)
+Theorem C16_request_fails_iff : forall server pos n,
+  stream_fails gen_stream_read server (pos, n) =
+  negb (n =? 0) && match server (pos, n) with None => true | Some r => (400 <=? r_status r) && (r_status r <? 600) end.
+Proof. exact stream_fails_gen. Qed.
+Print Assumptions C16_request_fails_iff.
+
+(* the abstraction the transition systems use for a fetch (fails r / slice file r) is what read does: a failed request raises
+   and leaves the stream where it was, any other one yields exactly the bytes of the range and moves the stream behind it *)
+Theorem C16_request_spec : forall file server pos n, honest file server ->
+  stream_read gen_stream_read server pos n =
+  if stream_fails gen_stream_read server (pos, n) then RExc pos else RData (slice file (pos, n)) (pos + n).
+Proof. exact stream_read_spec. Qed.
+Print Assumptions C16_request_spec.
+
+(* an empty range (the byte query of nodes without points) needs no request and cannot fail *)
+Theorem C16_empty_range_needs_no_request : forall server pos,
+  stream_read gen_stream_read server pos 0 = RData [] pos /\ stream_fails gen_stream_read server (pos, 0) = false.
+Proof. exact stream_empty_range. Qed.
+Print Assumptions C16_empty_range_needs_no_request.
+
+(* ---- queue strategy, main's prologue step by step: every put and every thread start is a point where main can be preempted ---- *)
+
+(* refinement: whatever is reachable when main's puts / starts interleave with the workers already started is reachable in the
+   system above, where the prologue is one step (seen through pabs: ranges not yet put are queued, workers not yet started exist) *)
+Theorem C16_queue_prologue_refines : forall file fails ranges workers ps,
+  preach gen_worker_prog file fails (pinit gen_main_prog ranges workers) ps ->
+  reach gen_worker_prog file fails (init gen_main_prog ranges workers) (pabs ps).
+Proof. intros file fails ranges workers ps H. exact (proj2 (prologue_refines file fails ranges workers ps H)). Qed.
+Print Assumptions C16_queue_prologue_refines.
+
+(* no deadlock, step by step: when no thread can move main has queued every range, started every worker and returned / raised,
+   and every worker has left its loop *)
+Theorem C16_queue_steps_no_deadlock : forall file fails ranges workers ps, (1 <= workers)%nat ->
+  preach gen_worker_prog file fails (pinit gen_main_prog ranges workers) ps -> pstuck gen_worker_prog file fails ps ->
+  p_toput ps = [] /\ p_tostart ps = O /\ main_done (p_s ps) = true /\ all_exited (p_s ps) = true.
+Proof. exact prologue_progress. Qed.
+Print Assumptions C16_queue_steps_no_deadlock.
+
+Theorem C16_queue_steps_terminate : forall file fails ranges workers ps t ps',
+  preach gen_worker_prog file fails (pinit gen_main_prog ranges workers) ps ->
+  pstep gen_worker_prog file fails ps t = Some ps' ->
+  (pmeasure gen_worker_prog ps' < pmeasure gen_worker_prog ps)%nat.
+Proof. exact prologue_terminates. Qed.
+Print Assumptions C16_queue_steps_terminate.
+
+(* ---- the strategies as CopcReader._fetch_all_chunks calls them: worker count = gen_fetch_workers http_num_threads (extracted
+        from the call), requests answered by any server; ranges may be empty ---- *)
+
+Theorem C16_http_query_queue : forall file server ranges n ps, (1 <= n)%nat ->
+  StronglySorted (fun a b : range => fst a < fst b) ranges ->
+  preach gen_worker_prog file (stream_fails gen_stream_read server) (pinit gen_main_prog ranges (gen_fetch_workers n)) ps ->
+  main_done (p_s ps) = true ->
+  if existsb (stream_fails gen_stream_read server) ranges
+  then exists r, s_status (p_s ps) = MRaised r /\ In r ranges /\ snd r <> 0 /\
+         (server r = None \/ exists resp, server r = Some resp /\ 400 <= r_status resp < 600)
+  else s_status (p_s ps) = MReturned /\ s_buf (p_s ps) = local_read file ranges.
+Proof. exact queue_http. Qed.
+Print Assumptions C16_http_query_queue.
+
+Theorem C16_http_query_executor : forall file server ranges n s o, (1 <= n)%nat ->
+  xreach gen_exec_stream_per_job gen_exec_collect gen_exec_job file (stream_fails gen_stream_read server)
+         (xinit ranges (gen_fetch_workers n)) s ->
+  x_main s = XShutdown o \/ x_main s = XDone o ->
+  o = match first_failing (stream_fails gen_stream_read server) ranges with
+      | None => OReturned (local_read file ranges) | Some r => ORaised r end.
+Proof. exact exec_http. Qed.
+Print Assumptions C16_http_query_executor.
+
+(* why the worker count handed to the strategies must stay >= 1 (a cap at the number of non-empty ranges breaks it): one empty
+   range, no worker — main has queued the range, started nobody and waits in join() for ever *)
+Theorem C16_zero_workers_deadlock :
+  let fails := fun _ : range => false in
+  let ps := prun gen_worker_prog [] fails (pinit gen_main_prog [(0, 0)] 0) [0; 0; 0]%nat in
+  pstuck gen_worker_prog [] fails ps /\ main_done (p_s ps) = false /\ s_unf (p_s ps) = 1%nat.
+Proof. exact zero_workers_deadlock. Qed.
+Print Assumptions C16_zero_workers_deadlock.
+
 (* the shape of the source the theorems above are about (regenerated from laspy/copc.py on every run) *)
 Theorem C16_source_shape :
   gen_worker_prog = [ITake false; IFetch; IPutResult; IPutExc; ITaskDone] /\
-  gen_main_prog = [MPutAll; MStart true; MJoin; MDrain; MSort; MAssemble].
-Proof. exact source_shape. Qed.
+  gen_main_prog = [MPutAll; MStart true; MJoin; MDrain; MSort; MAssemble] /\
+  gen_stream_read = [SZeroEmpty; SRequest; SRaiseForStatus; SAdvance; SReturnContent] /\
+  (forall n, gen_fetch_workers n = n).
+Proof. exact (conj (proj1 source_shape) (conj (proj2 source_shape) (conj sr_shape fetch_workers_id))). Qed.
 Print Assumptions C16_source_shape.
 
-(* 3 ranges queued out of offset order, 2 workers, the middle request fails / nothing fails; the higher offsets are answered first *)
+(* 3 ranges queued out of offset order, 2 workers, the middle request fails / nothing fails; the higher offsets are answered first;
+   and the same step by step against a server that answers the range at offset 0 with 416 and an empty body: worker 1 takes its
+   first range while main is still starting worker 2 *)
 Example C16_nonvacuous :
   let file := [0; 1; 2; 3; 4; 5; 6; 7; 8; 9] in
   let ranges := [(6, 2); (0, 3); (3, 1)] in
   let sched := [2; 1; 1; 1; 2; 2; 2; 2; 1; 1; 2; 2; 0; 2; 2; 2; 2; 1; 2; 0; 0; 0; 0; 0; 0; 0; 0]%nat in
   let ok := run gen_worker_prog file (fun _ => false) (init gen_main_prog ranges 2) sched in
   let ko := run gen_worker_prog file (fun r => fst r =? 0) (init gen_main_prog ranges 2) sched in
+  let server := fun r : range => if fst r =? 0 then Some (mkResp 416 []) else Some (mkResp 206 (slice file r)) in
+  let ps := prun gen_worker_prog file (stream_fails gen_stream_read server) (pinit gen_main_prog ranges 2)
+                 ([0; 0; 0; 0; 0; 1; 0; 0; 2; 1; 1] ++ skipn 4 sched)%nat in
   (s_status ok, s_buf ok, all_exited ok) = (MReturned, [0; 1; 2; 3; 6; 7], true)
-  /\ (s_status ko, s_buf ko, all_exited ko) = (MRaised (0, 3), [], true).
-Proof. vm_compute. split; reflexivity. Qed.
+  /\ (s_status ko, s_buf ko, all_exited ko) = (MRaised (0, 3), [], true)
+  /\ (s_status (p_s ps), s_buf (p_s ps), all_exited (p_s ps), p_tostart ps, p_toput ps) = (MRaised (0, 3), [], true, O, []).
+Proof. vm_compute. repeat split; reflexivity. Qed.
